@@ -14,8 +14,9 @@ package c18
 //
 // In the shared and spare layouts the outer slices ([]Ring, []LineString, []Polygon,
 // []Geometry) also get cap = len+2 with sentinel entries. The guard keeps the
-// full-capacity view of every backing array and a copy of it; after each call the whole
-// arrays (not only the elements within len) must be bit for bit what they were.
+// full-capacity view of every backing array and a copy of it; after each call every element
+// within len of every member must be bit for bit what it was (failure otherwise); a change that
+// only touches sentinel cells of spare capacity is counted as a note.
 // Expected values are always computed from an independent plain deep copy.
 
 import (
@@ -26,6 +27,7 @@ import (
 	"github.com/paulmach/orb"
 
 	"verifharness/internal/gen"
+	"verifharness/internal/stats"
 )
 
 var layouts = []string{"shared", "shared", "spare", "spare", "plain"} // 40 % / 40 % / 20 %
@@ -35,13 +37,17 @@ var sentinelPt = orb.Point{-7.77e77, 7.77e77}
 type guard struct {
 	views  [][]orb.Point
 	copies [][]orb.Point
+	values []int // number of leading slots that are VALUES the caller passed (within len of some member)
 	outers []func() string
 	outer0 []string
 }
 
-func (gd *guard) watch(full []orb.Point) {
+// watch registers a full-capacity view; its first nValues slots are elements of the value the
+// caller passed, the rest are sentinel cells of spare capacity.
+func (gd *guard) watch(full []orb.Point, nValues int) {
 	gd.views = append(gd.views, full)
 	gd.copies = append(gd.copies, append([]orb.Point(nil), full...))
+	gd.values = append(gd.values, nValues)
 }
 
 func (gd *guard) watchOuter(f func() string) {
@@ -49,23 +55,34 @@ func (gd *guard) watchOuter(f func() string) {
 	gd.outer0 = append(gd.outer0, f())
 }
 
-// check reports the first difference between the watched memory and its copy.
+// check compares the watched memory with its copy. SOUNDNESS RULE (round L): a change of a VALUE
+// the caller passed (an element within len of any member, including the next member's vertices in
+// the shared layout) by these read-only measures is a failure; a write that only touches spare
+// capacity beyond len (sentinel cells, spare entries of outer slices) changes nothing the caller
+// can reach without re-slicing and is recorded as a note (stats.Class "layout-note:..."), never a failure.
 func (gd *guard) check(after string) error {
 	if gd == nil {
 		return nil
 	}
+	noted := false
 	for i, v := range gd.views {
 		c := gd.copies[i]
 		for j := range v {
 			if math.Float64bits(v[j][0]) != math.Float64bits(c[j][0]) || math.Float64bits(v[j][1]) != math.Float64bits(c[j][1]) {
-				return fmt.Errorf("%s wrote to its argument: backing array %d, slot %d of %d: %v became %v", after, i, j, len(v), c[j], v[j])
+				if j < gd.values[i] {
+					return fmt.Errorf("%s changed the value of its argument: backing array %d, element %d of %d: %v became %v", after, i, j, gd.values[i], c[j], v[j])
+				}
+				noted = true
 			}
 		}
 	}
 	for i, f := range gd.outers {
 		if s := f(); s != gd.outer0[i] {
-			return fmt.Errorf("%s changed the spare capacity of outer slice %d: %s became %s", after, i, gd.outer0[i], s)
+			noted = true
 		}
+	}
+	if noted {
+		stats.Class("layout-note:spare capacity beyond len written by " + after + " (not a violation)")
 	}
 	return nil
 }
@@ -128,7 +145,7 @@ func (l *layouter) pts(ps []orb.Point) []orb.Point {
 	full := make([]orb.Point, len(ps)+2)
 	copy(full, ps)
 	full[len(ps)], full[len(ps)+1] = sentinelPt, sentinelPt
-	l.gd.watch(full)
+	l.gd.watch(full, len(ps))
 	return full[:len(ps)]
 }
 
@@ -217,7 +234,7 @@ func layOut(g orb.Geometry, mode string) (orb.Geometry, *guard) {
 	}
 	out := l.geom(g)
 	if mode == "shared" {
-		l.gd.watch(l.buf) // after the windows were filled
+		l.gd.watch(l.buf, l.off) // after the windows were filled
 	}
 	return out, l.gd
 }
